@@ -17,6 +17,9 @@
 void * verif_memcpy (void *dst, const void *src, size_t n) ;
 #endif
 size_t verif_strlen (const char *s) ;
+/* E1 strncpy / strcpy models (symbolic lengths): bounds are checked, the destination is NOT known to be terminated */
+#define strncpy(d, s, n)			verif_strncpy ((d), (s), (n))
+char * verif_strncpy (char *dst, const char *src, size_t n) ;
 #include "sndfile.c"
 #include "ghost.h"
 #include "dispatch.h"
@@ -36,6 +39,14 @@ size_t g_fmt_size ;			/* size argument of the last snprintf on `data` */
 const char *g_fmt_dst ;
 #define VERIF_SNPRINTF_RECORD
 #include "env_stubs.h"
+char * verif_strncpy (char *dst, const char *src, size_t n)
+{	if (n > 0)
+	{	__CPROVER_assert (__CPROVER_w_ok (dst, n), "E1 strncpy: destination writable for n bytes") ;
+		__CPROVER_havoc_object (dst) ;
+		} ;
+	if (dst == g_fmt_dst) { g_fmt_dst = NULL ; g_fmt_size = 0 ; }	/* no terminator guaranteed */
+	return dst ;
+}
 size_t verif_strlen (const char *s)
 {	__CPROVER_assert (s == g_fmt_dst, "E1 strlen model: only applied to the buffer just formatted") ;
 	__CPROVER_assert (g_fmt_size >= 1, "C17.string_commands_terminate_within_datasize: strlen reads a buffer that snprintf (size 0) never terminated") ;
